@@ -21,6 +21,9 @@ CONSTANTS
  DevInplaceInput = FALSE
  DevMoveBeforeClose = FALSE
  DevRouteDiscard = FALSE
+ DevStageFallback = FALSE
+ DevBackupSkip = FALSE
+ EnvInits <- MCEnvInits
 INVARIANT HistoryClean
 INVARIANT NoLoss
 INVARIANT BackupResolves
